@@ -479,3 +479,182 @@ B('pkgA_request_core_globals_renamed_crossed', ['C03'], 'R03.c',
   (C, "    context = endpoint({endpoint_args})\n    if isinstance(context, BaseResponse):", "    context = ep_chain({endpoint_args})\n    if isinstance(context, Response):"),
   (C, "        resp = render({render_args})", "        resp = rn_chain({render_args})"),
   (C, "    env = {'endpoint': endpoint, 'render': render, 'BaseResponse': BaseResponse}", "    env = {'rn_chain': endpoint, 'ep_chain': render, 'Response': BaseResponse}"))
+
+
+# ==================================================================================================================
+# second pass: clauses added for the seeded changes of round c
+# ==================================================================================================================
+
+# ------------------------------------------------------------------ R01.b / R04.*: the documented rejection is what the caller gets
+# (building the message of the exception cannot itself raise: every format gets the number of values it takes)
+_EP_RAISE = ('        raise NameError("unresolved endpoint middleware arguments: %r"\n'
+             '                        % list(ep_unres))\n')
+_RN_RAISE = ('        raise NameError("unresolved render middleware arguments: %r"\n'
+             '                        % list(rn_unres))\n')
+_REQ_RAISE = ('        raise NameError("unresolved request middleware arguments: %r"\n'
+              '                        % list(req_unres))\n')
+B('pkgA_unres_msg_bare_tuple_from_make_chain', ['C01', 'C04'], {'C01': 'R01.b', 'C04': 'R04.e'},
+  (S, '    return chain, set(args), set(unresolved)', '    return chain, set(args), unresolved'),
+  (C, _EP_RAISE, '        raise NameError("unresolved endpoint middleware arguments: %r" % (ep_unres))\n'))
+B('pkgA_unres_msg_tuple_call_at_raise', ['C01'], 'R01.b',
+  (C, _RN_RAISE, '        raise NameError("unresolved render middleware arguments: %r" % tuple(rn_unres))\n'))
+B('pkgA_unres_msg_two_conversions_one_value', ['C01'], 'R01.b',
+  (C, _REQ_RAISE, '        raise NameError("unresolved request middleware arguments: %r (available: %r)" % sorted(req_unres))\n'))
+B('pkgA_unres_msg_format_missing_field', ['C01'], 'R01.b',
+  (C, _EP_RAISE, '        raise NameError("unresolved endpoint middleware arguments: {0} (endpoint {1})".format(sorted(ep_unres)))\n'))
+B('pkgA_unres_msg_str_plus_list', ['C01'], 'R01.b',
+  (C, _RN_RAISE, '        raise NameError("unresolved render middleware arguments: " + sorted(rn_unres))\n'))
+B('pkgA_unres_msg_module_constant_two_tuple', ['C01'], 'R01.b',
+  (C, _REQ_RAISE, '        raise NameError(_UNRES_MSG % ("request", req_unres))\n'),
+  (C, "_INNER_NAME = 'next'\n", "_INNER_NAME = 'next'\n_UNRES_MSG = 'unresolved middleware arguments: %r'\n"))
+T('pkgA_twin_unres_msg_one_tuple', ['C01', 'C04'],
+  (C, _EP_RAISE, '        raise NameError("unresolved endpoint middleware arguments: %r" % (sorted(ep_unres),))\n'))
+T('pkgA_twin_unres_msg_set_operand', ['C01', 'C04'],
+  (C, _EP_RAISE, '        raise NameError("unresolved endpoint middleware arguments: %r" % (ep_unres))\n'),
+  (C, _RN_RAISE, '        raise NameError("unresolved render middleware arguments: %r" % rn_unres)\n'))
+T('pkgA_twin_make_chain_returns_tuple_raise_wraps', ['C01', 'C04'],
+  (S, '    return chain, set(args), set(unresolved)', '    return chain, set(args), unresolved'))
+T('pkgA_twin_unres_msg_format_and_constant', ['C01', 'C04'],
+  (C, _EP_RAISE, '        raise NameError("unresolved endpoint middleware arguments: {0!r}".format(sorted(ep_unres)))\n'),
+  (C, _RN_RAISE, '        raise NameError(f"unresolved render middleware arguments: {sorted(rn_unres)!r}")\n'),
+  (C, _REQ_RAISE, '        raise NameError(_UNRES_MSG % ("request", sorted(req_unres)))\n'),
+  (C, "_INNER_NAME = 'next'\n", "_INNER_NAME = 'next'\n_UNRES_MSG = 'unresolved %s middleware arguments: %r'\n"))
+B('pkgA_conflict_msg_tuple_operand', ['C04'], 'R04.a',
+  (C, "        raise NameError('found conflicting provides: %r' % conflicts)", "        raise NameError('found conflicting provides: %r' % tuple(conflicts))"))
+B('pkgA_reserved_msg_tuple_operand', ['C04'], 'R04.c',
+  (A, "        resource_conflicts = [r for r in RESERVED_ARGS if r in self.resources]\n",
+      "        resource_conflicts = tuple(r for r in RESERVED_ARGS if r in self.resources)\n"))
+B('pkgA_next_first_msg_lacks_value', ['C04'], 'R04.d',
+  (C, '                            " \'next\' as the first parameter (%s.%s)"\n                            % (mw.name, f_name))',
+      '                            " \'next\' as the first parameter (%s.%s)"\n                            % (mw.name,))'))
+T('pkgA_twin_conflict_msg_one_tuple', ['C04'],
+  (C, "        raise NameError('found conflicting provides: %r' % conflicts)", "        raise NameError('found conflicting provides: %r' % (tuple(conflicts),))"))
+
+# ------------------------------------------------------------------ R03.d / R04.a: merge_middlewares
+# (duplicates are looked up in the result *as it grows*; what came from the new list is never replaced, moved or removed;
+#  nothing but a unique duplicate is left out)
+_DUP_I = "mw.unique and (mw in outer or mw in old[:i])"
+_MERGE_CLOSED = ("    old = list(old)\n"
+                 "    outer = list(new)\n"
+                 "    dupes = [mw for i, mw in enumerate(old) if %(dup)s]\n"
+                 "    pinned = [mw for mw in dupes if not mw.reorderable]\n"
+                 "    if pinned:\n"
+                 "        raise ValueError('multiple inclusion of unique middleware %%r' %% pinned[0].name)\n"
+                 "    merged = outer + [mw for i, mw in enumerate(old) if not (%(dup)s)]\n")
+T('pkgA_twin_merge_closed_form', ['C03', 'C04'], (C, _MERGE_OLD, _MERGE_CLOSED % {'dup': _DUP_I}))
+T('pkgA_twin_merge_closed_form_any_concat', ['C03', 'C04'],
+  (C, _MERGE_OLD, "    old, outer = list(old), list(new)\n"
+                  "    if any(mw.unique and mw in outer + old[:i] and not mw.reorderable for i, mw in enumerate(old)):\n"
+                  "        raise ValueError('multiple inclusion of a unique middleware')\n"
+                  "    inner = [mw for i, mw in enumerate(old) if not mw.unique or mw not in outer + old[:i]]\n"
+                  "    merged = outer + inner\n"))
+B('pkgA_merge_closed_form_fixed_list', ['C03'], 'R03.d', (C, _MERGE_OLD, _MERGE_CLOSED % {'dup': "mw.unique and mw in outer"}))
+B('pkgA_merge_closed_form_prefix_only', ['C03'], 'R03.d', (C, _MERGE_OLD, _MERGE_CLOSED % {'dup': "mw.unique and mw in old[:i]"}))
+B('pkgA_merge_closed_form_whole_old', ['C03', 'C04'], {'C03': 'R03.d', 'C04': 'R04.a'},
+  (C, _MERGE_OLD, _MERGE_CLOSED % {'dup': "mw.unique and (mw in outer or mw in old)"}))
+B('pkgA_merge_closed_form_drops_nonunique', ['C03', 'C04'], {'C03': 'R03.d', 'C04': 'R04.a'},
+  (C, _MERGE_OLD, _MERGE_CLOSED % {'dup': "(mw in outer or mw in old[:i])"}))
+B('pkgA_merge_loop_tests_fixed_list', ['C03'], 'R03.d',
+  (C, "    merged = list(new)\n    for mw in old:\n        if mw.unique and mw in merged:\n",
+      "    outer = list(new)\n    merged = list(outer)\n    for mw in old:\n        if mw.unique and mw in outer:\n"))
+T('pkgA_twin_merge_append_spellings', ['C03', 'C04'], (C, "        merged.append(mw)\n", "        merged += [mw]\n"))
+T('pkgA_twin_merge_not_in_guard', ['C03', 'C04'],
+  (C, _MERGE_OLD, "    old = list(old)\n    merged = list(new)\n    for mw in old:\n"
+                  "        if not mw.unique or mw not in merged:\n"
+                  "            merged.extend([mw])\n"
+                  "        elif not mw.reorderable:\n"
+                  "            raise ValueError('multiple inclusion of unique middleware %r' % mw.name)\n"))
+B('pkgA_merge_replaces_outer_instance', ['C03'], 'R03.d',
+  (C, "            if mw.reorderable:\n                continue\n", "            if mw.reorderable:\n                merged[merged.index(mw)] = mw\n                continue\n"))
+B('pkgA_merge_moves_duplicate_inwards', ['C03'], 'R03.d',
+  (C, "            if mw.reorderable:\n                continue\n", "            if mw.reorderable:\n                del merged[merged.index(mw)]\n"))
+B('pkgA_merge_alias_insert_front', ['C03'], 'R03.d',
+  (C, "        merged.append(mw)\n    return merged", "        merged.append(mw)\n    result = merged\n    result.insert(0, result.pop())\n    return merged"))
+B('pkgA_merge_sorts_result', ['C03'], 'R03.d',
+  (C, "        merged.append(mw)\n    return merged", "        merged.append(mw)\n    merged.sort(key=lambda m: m.name)\n    return merged"))
+B('pkgA_merge_drops_present_nonunique', ['C04'], 'R04.a',
+  (C, "        if mw.unique and mw in merged:\n            if mw.reorderable:\n                continue\n            else:\n",
+      "        if mw in merged:\n            if mw.reorderable:\n                continue\n            if mw.unique:\n"))
+B('pkgA_merge_outer_list_filtered', ['C03', 'C04'], {'C03': 'R03.d', 'C04': 'R04.a'},
+  (C, "    merged = list(new)\n", "    merged = [m for m in new if m.unique]\n"))
+B('pkgA_merge_result_truncated', ['C04'], 'R04.a',
+  (C, "        merged.append(mw)\n    return merged", "        merged.append(mw)\n    while len(merged) > 16:\n        merged.pop()\n    return merged"))
+
+# ------------------------------------------------------------------ R04.a / R04.d: tables of slot / provides names, generators, chained iterables
+_PROV_LOOPS = ("        for arg in mw.provides:\n            provided_by[arg].append(mw)\n"
+               "        for arg in mw.endpoint_provides:\n            provided_by[arg].append(mw)\n"
+               "        for arg in mw.render_provides:\n            provided_by[arg].append(mw)\n")
+T('pkgA_twin_conflict_map_chained_provides', ['C04'],
+  (C, _PROV_LOOPS, "        mw_provides = itertools.chain(mw.provides, mw.endpoint_provides, mw.render_provides)\n"
+                   "        for arg in mw_provides:\n            provided_by[arg].append(mw)\n"),
+  (C, "    args_dict = args_dict or {}\n", ""),
+  (C, "    for source, arg_list in args_dict.items():", "    for source, arg_list in (args_dict or {}).items():"))
+B('pkgA_conflict_map_chained_provides_lacks_phase', ['C04'], 'R04.a',
+  (C, _PROV_LOOPS, "        mw_provides = itertools.chain(mw.provides, mw.render_provides)\n"
+                   "        for arg in mw_provides:\n            provided_by[arg].append(mw)\n"))
+_PROV_GEN = ("_MW_PROVIDES_NAMES = (%s)\n\n\n"
+             "def _iter_provides(mw):\n"
+             "    for provides_name in _MW_PROVIDES_NAMES:\n"
+             "        for arg in getattr(mw, provides_name):\n"
+             "            yield arg\n\n\n"
+             "def check_middlewares(")
+T('pkgA_twin_conflict_map_generator_over_table', ['C04'],
+  (C, _PROV_LOOPS, "        for arg in _iter_provides(mw):\n            provided_by[arg].append(mw)\n"),
+  (C, "def check_middlewares(", _PROV_GEN % "'provides', 'endpoint_provides', 'render_provides'"))
+B('pkgA_conflict_map_generator_table_lacks_phase', ['C04'], 'R04.a',
+  (C, _PROV_LOOPS, "        for arg in _iter_provides(mw):\n            provided_by[arg].append(mw)\n"),
+  (C, "def check_middlewares(", _PROV_GEN % "'provides', 'endpoint_provides'"))
+B('pkgA_conflict_map_generator_yields_conditionally', ['C04'], 'R04.a',
+  (C, _PROV_LOOPS, "        for arg in _iter_provides(mw):\n            provided_by[arg].append(mw)\n"),
+  (C, "def check_middlewares(", (_PROV_GEN % "'provides', 'endpoint_provides', 'render_provides'").replace(
+      "            yield arg\n", "            if not arg.startswith('_'):\n                yield arg\n")))
+_PHASE_TABLE = ("_PHASES = (('request', 'provides'), ('endpoint', 'endpoint_provides'), ('render', 'render_provides'))\n\n\n"
+                "def check_middlewares(")
+T('pkgA_twin_conflict_map_table_of_pairs', ['C04'],
+  (C, _PROV_LOOPS, "        for _phase_name, provides_attr in _PHASES:\n            for arg in getattr(mw, provides_attr):\n"
+                   "                provided_by[arg].append(mw)\n"),
+  (C, "def check_middlewares(", _PHASE_TABLE))
+B('pkgA_conflict_map_table_of_pairs_wrong_column', ['C04'], 'R04.a',
+  (C, _PROV_LOOPS, "        for provides_attr, _phase_name in _PHASES:\n            for arg in getattr(mw, provides_attr, ()) or ():\n"
+                   "                provided_by[arg].append(mw)\n"),
+  (C, "def check_middlewares(", _PHASE_TABLE))
+_SLOT_GEN = ("_SLOTS = (%s)\n\n\n"
+             "def _iter_slot_funcs(mw):\n"
+             "    for slot_name, _provides_attr in _SLOTS:\n"
+             "        func = getattr(mw, slot_name, None)\n"
+             "        if func:\n"
+             "            yield slot_name, func\n\n\n"
+             "def check_middleware(mw):\n"
+             "    for f_name, func in _iter_slot_funcs(mw):\n")
+_SLOT_OLD = ("def check_middleware(mw):\n"
+             "    for f_name in ('request', 'endpoint', 'render'):\n"
+             "        func = getattr(mw, f_name, None)\n"
+             "        if not func:\n"
+             "            continue\n")
+T('pkgA_twin_slots_generator_over_pairs', ['C04'],
+  (C, _SLOT_OLD, _SLOT_GEN % "('request', 'provides'), ('endpoint', 'endpoint_provides'), ('render', 'render_provides')"))
+B('pkgA_slots_generator_lacks_render', ['C04'], 'R04.d',
+  (C, _SLOT_OLD, _SLOT_GEN % "('request', 'provides'), ('endpoint', 'endpoint_provides')"))
+
+# ------------------------------------------------------------------ normaliser: f(a, *PAIR) with PAIR a module-level tuple of constants
+_SIG_HELPER = ("_REQUEST_PHASE = ('request', 'provides')\n_ENDPOINT_PHASE = (%s)\n_RENDER_PHASE = ('render', 'render_provides')\n\n\n"
+               "def _get_phase_signatures(middlewares, phase_name, provides_attr):\n"
+               "    sigs = [(getattr(mw, phase_name), getattr(mw, provides_attr))\n"
+               "            for mw in middlewares if getattr(mw, phase_name)]\n"
+               "    funcs, provides = list(zip(*sigs)) or ((), ())\n"
+               "    return funcs, provides\n\n\n"
+               "def make_middleware_chain(")
+_SIG_EDITS = (
+    (C, "    req_sigs = [(mw.request, mw.provides)\n                for mw in middlewares if mw.request]\n"
+        "    req_funcs, req_provides = list(zip(*req_sigs)) or ((), ())\n",
+        "    req_funcs, req_provides = _get_phase_signatures(middlewares, *_REQUEST_PHASE)\n"),
+    (C, "    ep_sigs = [(mw.endpoint, mw.endpoint_provides)\n               for mw in middlewares if mw.endpoint]\n"
+        "    ep_funcs, ep_provides = list(zip(*ep_sigs)) or ((), ())\n",
+        "    ep_funcs, ep_provides = _get_phase_signatures(middlewares, *_ENDPOINT_PHASE)\n"),
+    (C, "    rn_sigs = [(mw.render, mw.render_provides)\n               for mw in middlewares if mw.render]\n"
+        "    rn_funcs, rn_provides = list(zip(*rn_sigs)) or ((), ())\n",
+        "    rn_funcs, rn_provides = _get_phase_signatures(middlewares, *_RENDER_PHASE)\n"))
+T('pkgA_twin_phase_signatures_starred_constant_pairs', ALL4,
+  *(_SIG_EDITS + ((C, "def make_middleware_chain(", _SIG_HELPER % "'endpoint', 'endpoint_provides'"),)))
+B('pkgA_phase_signatures_starred_pairs_crossed', ['C01', 'C03'], {'C01': 'R01.d', 'C03': 'R03.d'},
+  *(_SIG_EDITS + ((C, "def make_middleware_chain(", _SIG_HELPER % "'endpoint', 'provides'"),)))
